@@ -94,6 +94,12 @@ theorem touch_ltr {s : State} {t : Tid} {e : Event} {x' : Thr} (hi : Inv s) (h :
     simp [touches, hlist] at hr; subst hr
     exact .inr (by rw [hlist]; simp)
   | wwRelLd site obs hl => rcases hl with ⟨rfl, _⟩ | ⟨rfl, _⟩ <;> simp [touches] at hr
+  | dbgW r' obs hl hq hm ho' =>
+    simp [touches, hl] at hr; subst hr
+    exact .inl (List.mem_of_getElem? hq)
+  | dbgRc r' obs hl hq ho' =>
+    simp [touches, hl] at hr; subst hr
+    exact .inl (List.mem_of_getElem? hq)
   | _ => simp [touches] at hr
 
 
@@ -123,6 +129,7 @@ theorem touch_registered {cfg : Config} {s s' : State} {e : Event} (hi : Inv s) 
       unfold afterAcquire
       split
       · simp; split <;> simp_all
+      · simp
       · simp
       · simp
       · dsimp only; split <;> (split <;> rfl)
@@ -185,6 +192,7 @@ theorem touch_registered {cfg : Config} {s s' : State} {e : Event} (hi : Inv s) 
         exact absurd hown ho2
       · exact .inl hr
   | relDeqW t new obs n hl hh hnew hn hsp => simp [touches] at hr
+  | relDbg t new obs n hl hh hnew hn hsp => simp [touches] at hr; exact .inl hr
   | deqSpinExit t r' hl hr' hw =>
     simp [Event.tid] at hu; subst hu
     simp [touches] at hr; subst hr; subst hr'
